@@ -12,7 +12,7 @@ from typing import (Any, AsyncGenerator, Callable, Dict, Generator, List,
 
 import utype
 from ..utils import exceptions as exc
-from ..utils.compat import (ForwardRef, Literal, Self, evaluate_forward_ref,
+from ..utils.compat import (ForwardRef, Literal, Self, evaluate_forward_ref, own_forward_refs,
                             get_args, get_origin, UnionType)
 from ..utils.datastructures import unprovided
 from ..utils.functional import multi, pop
@@ -173,7 +173,7 @@ class LogicalType(type):  # noqa
         __origin = get_origin(arg)
         if __origin:
             # like List[str] Literal["value"]
-            _new_args = get_args(arg) or ()
+            _new_args = own_forward_refs(get_args(arg) or ())
         else:
             # only if not origin is detected, we let go the class arg
             # for py>3.8, something like list[int] / dict[str, int] in also a class
@@ -1522,7 +1522,7 @@ class Rule(metaclass=LogicalType):
         if origin:
             # first resolve origin
             # generic types like list[int] with origin is still a type
-            args = get_args(annotation) or ()
+            args = own_forward_refs(get_args(annotation) or ())
             constraints = constraints or {}
             return cls.annotate(
                 origin,
